@@ -135,6 +135,20 @@ add(
     "DESIGN.md 6/C01",
 )
 
+add(
+    "C12",
+    "exploration",
+    "Real Tuner in the simulator and over the scripted file back-end with generated stopping criteria (all count fields, wall-clock on "
+    "the harness / simulated clock, metric thresholds, combinations), flags, failures, failure limits, finite spaces and an injected "
+    "scheduler exception; every evaluation of the criterion by the loop is recorded and compared with the monitor's own recomputation "
+    "from independent counts; no iteration / no start after the criterion held; bounded overshoot; after run(): nothing alive, results "
+    "file complete, TuningStatus counters == states from the history. 1.8e4 runs quick, 3.5e5 thorough.",
+    "Liveness is a bounded statement (finite scripts, loop guard 20000 iterations = no-termination). 'Left running' judged on the "
+    "scripted back-end only, as the property says. Failing jobs are not combined with synchronous Hyperband / DEHB here (known findings of C13 / C05).",
+    "property-based testing (Hypothesis choice tape, real Tuner): recording proxy vs independent recomputation + history invariants",
+    "DESIGN.md 6/C12",
+)
+
 NOT_YET = {}
 
 ALL = [f"C{i:02d}" for i in range(1, 21)]
